@@ -148,6 +148,7 @@ class Ctx:
         self.patches = []
         self.warnings = []
         self.unknown_branches = 0
+        self.registry = None  # free slot for harness-level environment models (e.g. date tokens of C20)
         self.cones = None  # when a list: every comparison |re + i im| <= L is recorded as (re, im, L, strict)
         self.seed = seed
         if mode == "sym":
